@@ -34,6 +34,9 @@ pub struct Cfg {
     /// lazer DifficultyAdjust with this circle size, as (value, mode: 0 osu! | 2 catch) (forces the lazer representation of that mode)
     #[serde(default)]
     pub da_cs: Option<(f32, u8)>,
+    /// lazer Random mod WITHOUT a seed, in the lazer set of this mode (1 taiko | 3 mania): as the API delivers `{"acronym":"RD"}`
+    #[serde(default)]
+    pub random_unseeded: Option<u8>,
 }
 
 impl Cfg {
@@ -43,6 +46,16 @@ impl Cfg {
             for acr in a.split(',').filter(|s| !s.is_empty()) {
                 im.insert(rosu_mods::GameModIntermode::from_acronym(acr.parse::<rosu_mods::Acronym>().expect("acronym")));
             }
+        }
+        if let Some(mode) = self.random_unseeded {
+            use rosu_mods::generated_mods as gm;
+            let mut lazer = im.with_mode(if mode == 3 { rosu_mods::GameMode::Mania } else { rosu_mods::GameMode::Taiko });
+            if mode == 3 {
+                lazer.insert(rosu_mods::GameMod::RandomMania(gm::RandomMania::default()));
+            } else {
+                lazer.insert(rosu_mods::GameMod::RandomTaiko(gm::RandomTaiko::default()));
+            }
+            return lazer.into();
         }
         if let Some((cs, mode)) = self.da_cs {
             use rosu_mods::generated_mods as gm;
